@@ -1,0 +1,15 @@
+//go:build verif
+
+package fasthttputil
+
+// Accessors for the verification harness (add-only; compiled only with -tags verif).
+
+// VerifListenerQueued returns the number of connections queued in ln.conns
+// (dialed, not yet taken by Accept or drained by Close).
+func VerifListenerQueued(ln *InmemoryListener) int { return len(ln.conns) }
+
+// VerifListenerQueueCap returns the capacity of ln.conns.
+func VerifListenerQueueCap(ln *InmemoryListener) int { return cap(ln.conns) }
+
+// VerifPipeChanCap returns the capacity of the buffer channels of pc (same for both directions).
+func VerifPipeChanCap(pc *PipeConns) int { return cap(pc.c1.rCh) }
